@@ -130,7 +130,15 @@ func mkStep(r *kernel.Rand, op string, h *harness, hostile float64) kernel.Step 
 		return kernel.St("init", "kind", k, "r", int64(r.Uint64()>>2))
 	case "update", "check", "force":
 		k := []string{"valid", "valid", "valid", "final", "mut", "mut", "multi"}[r.Intn(7)]
+		if op == "update" && r.Bool(0.12) {
+			// the very object that passed the last CheckUpdate, possibly after the
+			// machine has moved on or after the object was changed (touch=1)
+			k = "rechecked"
+		}
 		st := kernel.St(op, "kind", k, "r", int64(r.Uint64()>>2))
+		if k == "rechecked" {
+			st.A["touch"] = int64(r.Intn(2))
+		}
 		if k == "mut" {
 			st.S["m"] = gen.Mutations[r.Intn(len(gen.Mutations))]
 		}
@@ -196,9 +204,19 @@ func genC02(r *kernel.Rand, tier string) []kernel.Step {
 				op = "check"
 			}
 			k := []string{"valid", "mut", "mut", "mut", "mut", "multi", "final"}[r.Intn(7)]
+			if op == "update" && r.Bool(0.15) {
+				// the very object that passed an earlier CheckUpdate: the machine may
+				// have moved on since, or the object is changed first (touch=1)
+				k = "rechecked"
+			} else if op == "check" && r.Bool(0.5) {
+				k = "valid" // candidates that pass, to be offered again later
+			}
 			st := kernel.St(op, "kind", k, "r", int64(r.Uint64()>>2))
 			if k == "mut" {
 				st.S["m"] = gen.Mutations[r.Intn(len(gen.Mutations))]
+			}
+			if k == "rechecked" {
+				st.A["touch"] = int64(r.Intn(2))
 			}
 			steps = append(steps, st)
 			if op == "update" {
